@@ -97,7 +97,74 @@ func reachable(p *Prog) map[string]bool {
 	return out
 }
 
+// mutSel selects which part of a collection literal an edit touches and how: it is
+// set from the plan tape by the edits that use mutScalar (0 = first element, value
+// changed: the historical behaviour).
+var mutSel int
+
 func mutScalar(v interface{}) (interface{}, bool) {
+	switch x := v.(type) {
+	case []interface{}:
+		if len(x) > 0 {
+			switch mutSel % 6 {
+			case 1: // the last element's value
+				if nv, ok := mutScalar(x[len(x)-1]); ok {
+					c := append([]interface{}(nil), x...)
+					c[len(x)-1] = nv
+					return c, true
+				}
+			case 2: // one element fewer
+				return append([]interface{}(nil), x[:len(x)-1]...), true
+			case 3: // two different elements swapped
+				for i := 1; i < len(x); i++ {
+					if Canon(Plain(x[i])) != Canon(Plain(x[0])) {
+						c := append([]interface{}(nil), x...)
+						c[0], c[i] = c[i], c[0]
+						return c, true
+					}
+				}
+			case 4: // an element becomes null
+				for i := len(x) - 1; i >= 0; i-- {
+					if x[i] != nil {
+						c := append([]interface{}(nil), x...)
+						c[i] = nil
+						return c, true
+					}
+				}
+			case 5: // a middle element's value
+				if nv, ok := mutScalar(x[len(x)/2]); ok {
+					c := append([]interface{}(nil), x...)
+					c[len(x)/2] = nv
+					return c, true
+				}
+			}
+		}
+	case *OMap:
+		if len(x.Keys) > 0 {
+			cp := func() *OMap {
+				c := NewOMap()
+				for _, kk := range x.Keys {
+					c.Set(kk, x.Vals[kk])
+				}
+				return c
+			}
+			last := x.Keys[len(x.Keys)-1]
+			switch mutSel % 6 {
+			case 1, 5: // the last entry's value
+				if nv, ok := mutScalar(x.Vals[last]); ok {
+					c := cp()
+					c.Set(last, nv)
+					return c, true
+				}
+			case 4: // an entry becomes null
+				if x.Vals[last] != nil {
+					c := cp()
+					c.Set(last, nil)
+					return c, true
+				}
+			}
+		}
+	}
 	switch x := v.(type) {
 	case int64:
 		return x + 1, true
@@ -176,6 +243,8 @@ var edits = []progEdit{
 	{"semantic:change-literal-in-binding", true, func(p *Prog, plan *Tape) (*Prog, string, bool) {
 		q := cloneProg(p)
 		r := reachable(q)
+		mutSel = plan.Draw(6)
+		defer func() { mutSel = 0 }()
 		for _, pl := range q.Pipelines {
 			if !r[pl.Name] {
 				continue
@@ -589,6 +658,8 @@ var edits = []progEdit{
 	}},
 	{"semantic:change-top-call-argument", true, func(p *Prog, plan *Tape) (*Prog, string, bool) {
 		q := cloneProg(p)
+		mutSel = plan.Draw(6)
+		defer func() { mutSel = 0 }()
 		for bi, b := range q.Top.Binds {
 			if ne, ok := mutExprLit(b.E); ok {
 				q.Top.Binds[bi].E = ne
